@@ -702,6 +702,11 @@ def z_r5_offset_sign(p: Project, rep: Report):
                 v = ast.Constant(value=-v.operand.value) if isinstance(v.operand.value, (int, float)) else v
             if isinstance(tg, ast.Name) and isinstance(v, ast.Constant) and isinstance(v.value, (int, float)) and not isinstance(v.value, bool) and tg.id not in params:
                 consts[tg.id] = POS if v.value > 0 else (NEG if v.value < 0 else ZERO)
+    if len(params) < 2:
+        # the minutes no longer arrive as a quantity of their own: `[+5.30]` read as ONE decimal number is 5.3 HOURS
+        # (5:18), not five hours thirty minutes
+        rep.check("Z-R5", "gmt_offset:hours-and-minutes-separate", False, f"utils.gmt_offset() takes {params}: hours and minutes are no longer two quantities - a notation whose fraction counts MINUTES ([+5.30] = 5 h 30 min) read as a decimal number of hours gives 5 h 18 min", tloc(p, fn) if "tloc" in globals() else f"ofxtools/utils.py:{fn.lineno}")
+        return
     for hs, want in ((NEG, (NEG,)), (POS, (POS,))):
         env_ = {**consts, params[0]: hs, params[1]: POS}
         live = []
@@ -754,6 +759,19 @@ def z_r6_carrier_date(p: Project, rep: Report):
             if isinstance(v, ast.Call) and text(v.func).endswith("date") and v.args and isinstance(v.args[0], ast.Constant) and isinstance(v.args[0].value, int):
                 bad = v.args[0].value <= 1 or v.args[0].value >= 9999
             rep.check("Z-R6", f"Time.{name}:carrier-date", not bad, f"the time of day is placed on {tv} before the offset arithmetic: for an offset that crosses midnight the result falls outside the calendar and the conversion raises OverflowError" if bad else "", tloc(p, c))
+    if True:
+        # clock arithmetic done by hand (whatever other methods do).  The known-wrong recomposition takes whole seconds by
+        # int(<timedelta>.total_seconds()) - truncation toward zero - next to <timedelta>.microseconds, which belongs to the
+        # FLOORED second: for a negative remainder (a positive offset wrapping back across midnight) with a non-zero
+        # fraction the result is one second late
+        c0, nf0 = ci.find_method("normalize_to_gmt")
+        if nf0 is not None:
+            nf = flat(p, TYPES, nf0, ci)
+            trunc = [x for x in ast.walk(nf) if isinstance(x, ast.Call) and text(x.func) == "int" and x.args and "total_seconds()" in text(x.args[0])]
+            micro = [x for x in ast.walk(nf) if isinstance(x, ast.Attribute) and x.attr == "microseconds"]
+            if trunc and micro:
+                rep.check("Z-R6", "Time.normalize_to_gmt:carrier-date", False, f"the time of day is moved to GMT without a datetime carrier: `{text(trunc[0])[:50]}` truncates toward zero while `{text(micro[0])}` is the fraction of the floored second - for a time whose positive offset wraps back across midnight and whose milliseconds are not zero the result is one second late (003000.020[+1] -> 23:30:01.020)", tloc(p, trunc[0]))
+                return
     if n == 0:
         rep.note("Z-R6 undecided: no carrier datetime recognised in Time")
 
